@@ -215,6 +215,20 @@ func selftest(o *checkOpts, ur *unitResult, patches []SourcePatch) error {
 	if len(unit.Selftest) == 0 || ur.prog == nil {
 		return nil
 	}
+	if ur.staleWB != "" {
+		// self-test drivers that lived in a dropped white-box file cannot run
+		reduced := *unit
+		reduced.Selftest = nil
+		for _, e := range unit.Selftest {
+			if ur.prog.target.Func(e) != nil {
+				reduced.Selftest = append(reduced.Selftest, e)
+			}
+		}
+		unit = &reduced
+		if len(unit.Selftest) == 0 {
+			return nil
+		}
+	}
 	var specs []JobSpec
 	for _, e := range unit.Selftest {
 		specs = append(specs, JobSpec{Entry: e, MapOrder: "first"})
